@@ -27,7 +27,7 @@ func init() {
 		}}},
 		Run: run,
 		Floors: func(t string) map[string]int64 {
-			m := map[string]int64{"pos.perturbed": 5000, "pos.permuted": 2000, "pos.ring_rotated": 1000, "neg.type": 5000, "neg.member_inserted": 1000, "neg.member_deleted": 1000, "neg.vertex_inserted": 1000,
+			m := map[string]int64{"pos.perturbed": 5000, "pos.empty_box_with_itself": 200, "base.two_different_members_with_one_bounding_box": 300, "pos.one_infinite_ordinate": 200, "pos.permuted": 2000, "pos.ring_rotated": 1000, "neg.type": 5000, "neg.member_inserted": 1000, "neg.member_deleted": 1000, "neg.vertex_inserted": 1000,
 				"neg.vertex_deleted": 1000, "neg.reversed": 300, "neg.displaced": 2000, "unrelated": 1000, "base.many_members_60_to_140": 100, "base.with_duplicate_member": 300, "neg.ring_moved_to_sibling_polygon": 300, "base.coordinate_spacing_comparable_to_tol": 300, "base.ring_with_tied_leftmost_vertices": 500, "base.with_unclosed_ring": 500, "neg.closing_vertex_displaced": 500, "pos.perturbed_closing_vertex_on_its_own": 2000, "base.ring_through_one_vertex_twice": 300}
 			for _, n := range typeNames {
 				m["base."+n] = 100
@@ -40,15 +40,23 @@ func init() {
 var typeNames = []string{"Point", "MultiPoint", "LineString", "MultiLineString", "Polygon", "MultiPolygon", "GeometryCollection", "*Bounds"}
 
 type builder struct {
-	r    *gen.R
-	tol  float64
-	cell int // next free cell
-	many bool // top-level multi-geometries get 60..140 members (sizes on both sides of 64 and 128)
-	unclosed, sawUnclosed bool // half of the rings are spelled without the repeated first vertex
-	tiedAnchor, sawTie bool // rings may have several vertices with the smallest X (axis-parallel left edges)
-	revisit, sawRevisit bool // closed rings may visit one of their vertices twice
-	freeClosing bool // perturb leaves the closing vertex of a ring on its own
-	off  float64 // added to every coordinate: 1e15 .. 9e15 tol puts the float64 spacing at 0.1 .. 1 tol
+	r                     *gen.R
+	tol                   float64
+	cell                  int     // next free cell
+	many                  bool    // top-level multi-geometries get 60..140 members (sizes on both sides of 64 and 128)
+	unclosed, sawUnclosed bool    // half of the rings are spelled without the repeated first vertex
+	tiedAnchor, sawTie    bool    // rings may have several vertices with the smallest X (axis-parallel left edges)
+	revisit, sawRevisit   bool    // closed rings may visit one of their vertices twice
+	freeClosing           bool    // perturb leaves the closing vertex of a ring on its own
+	off                   float64 // added to every coordinate: 1e15 .. 9e15 tol puts the float64 spacing at 0.1 .. 1 tol
+	sameBox, sawSameBox   bool    // multi-geometries get a pair of DIFFERENT members with the same vertex count and the same bounding box
+}
+
+// rect returns the corners a, b, c, d (counter-clockwise from the lower left) of a rectangle in a fresh cell.
+func (b *builder) rect() (pa, pb, pc, pd geom.Point) {
+	cx, cy := b.nextCell()
+	w, h := float64(b.r.IntRange(2, 20))*200*b.tol, float64(b.r.IntRange(2, 20))*200*b.tol
+	return geom.Point{X: cx - w, Y: cy - h}, geom.Point{X: cx + w, Y: cy - h}, geom.Point{X: cx + w, Y: cy + h}, geom.Point{X: cx - w, Y: cy + h}
 }
 
 // shift returns v+d as realised in float64 with the meaning of d kept: a perturbation
@@ -183,11 +191,34 @@ func (b *builder) build(kind int, depth int) geom.Geom {
 		for i := range m {
 			m[i] = b.pts(r.IntRange(2, 5))
 		}
+		if b.sameBox && !b.many {
+			// two different members with the same vertex count and the same bounding box: a line and
+			// its reverse (the two carriageways of a street), the two diagonals of a rectangle, or
+			// the two ways round it
+			pa, pb, pc, pd := b.rect()
+			switch r.Intn(3) {
+			case 0:
+				m = append(m, geom.LineString{pa, pb, pc}, geom.LineString{pc, pb, pa})
+			case 1:
+				m = append(m, geom.LineString{pa, pc}, geom.LineString{pb, pd})
+			default:
+				m = append(m, geom.LineString{pa, pb, pc}, geom.LineString{pa, pd, pc})
+			}
+			b.sawSameBox = true
+		}
 		return m
 	case 4:
 		m := make(geom.Polygon, r.IntRange(1, 3))
 		for i := range m {
 			m[i] = b.ring()
+		}
+		if b.sameBox {
+			// a rectangular shell and the diamond inscribed in it: two rings of five vertices with
+			// the same bounding box
+			pa, pb, pc, pd := b.rect()
+			mid := func(p, q geom.Point) geom.Point { return geom.Point{X: p.X/2 + q.X/2, Y: p.Y/2 + q.Y/2} }
+			m = append(m, geom.Path{pa, pb, pc, pd, pa}, geom.Path{mid(pa, pb), mid(pb, pc), mid(pc, pd), mid(pd, pa), mid(pa, pb)})
+			b.sawSameBox = true
 		}
 		return m
 	case 5:
@@ -198,6 +229,12 @@ func (b *builder) build(kind int, depth int) geom.Geom {
 				pg[j] = b.ring()
 			}
 			m[i] = pg
+		}
+		if b.sameBox && !b.many {
+			// a rectangle split along a diagonal into two triangles (same bounding box, same counts)
+			pa, pb, pc, pd := b.rect()
+			m = append(m, geom.Polygon{{pa, pb, pc, pa}}, geom.Polygon{{pa, pc, pd, pa}})
+			b.sawSameBox = true
 		}
 		return m
 	case 6:
@@ -578,6 +615,7 @@ func run(c *core.Ctx, idx int) {
 	b.tiedAnchor = r.Chance(0.3)
 	b.revisit = r.Chance(0.25)
 	b.unclosed = r.Chance(0.3)
+	b.sameBox = r.Chance(0.2)
 	if r.Chance(0.1) {
 		// far from the origin relative to the tolerance: the float64 spacing of the coordinates is
 		// 0.1 .. 1 tol (a tolerance of a nanometre at UTM coordinates); perturbations and
@@ -607,6 +645,9 @@ func run(c *core.Ctx, idx int) {
 	}
 	if b.sawUnclosed {
 		c.Count("base.with_unclosed_ring")
+	}
+	if b.sawSameBox {
+		c.Count("base.two_different_members_with_one_bounding_box")
 	}
 	c.Count("base." + tname(g))
 	if c.WantSample() && kind >= 3 {
@@ -675,6 +716,38 @@ func run(c *core.Ctx, idx int) {
 	// unrelated random pair of the same type: only symmetry is known... and they differ by construction (fresh cells)
 	c.Count("unrelated")
 	judge(b.build(kind, 0), false, "unrelated_same_type")
+	// infinite ordinates: the empty box (corners at +Inf / -Inf) against another empty box, and g
+	// with one ordinate of one vertex at an infinity against a perturbed copy (an infinite ordinate
+	// perturbed by less than tol is the same infinity)
+	if r.Chance(0.15) {
+		base := g
+		g = geom.NewBounds()
+		c.Count("pos.empty_box_with_itself")
+		judge(geom.NewBounds(), true, "empty box with another empty box")
+		g = base
+	}
+	if paths := countPaths(g); paths > 0 && r.Chance(0.15) {
+		inf := math.Inf(1 - 2*r.Intn(2))
+		k, onX := r.Intn(paths), r.Bool()
+		gi := editPath(gen.DeepCopy(g), k, func(p []geom.Point, ring bool) []geom.Point {
+			if len(p) < 3 {
+				return p
+			}
+			i := 1 + r.Intn(len(p)-2) // not the first or the closing vertex
+			if onX {
+				p[i].X = inf
+			} else {
+				p[i].Y = inf
+			}
+			return p
+		})
+		base := g
+		g = gi
+		c.Count("pos.one_infinite_ordinate")
+		judge(b.perturb(gi), true, "perturbed, one ordinate infinite in both")
+		judge(gen.DeepCopy(gi), true, "identical, one ordinate infinite")
+		g = base
+	}
 }
 
 // dupMember returns g with one of its members (line strings, polygons, rings,
